@@ -53,16 +53,7 @@ def prepare(tier):  # pylint: disable=unused-argument
 def _install():
     if _STATE["installed"]:
         return
-    import permuta.perm_sets.basis as mb  # pylint: disable=import-outside-toplevel
-    import permuta.perm_sets.permset as mp  # pylint: disable=import-outside-toplevel
-    import sys  # pylint: disable=import-outside-toplevel
-
-    mods = [m for name, m in sorted(sys.modules.items())
-            if name.startswith("permuta.perm_sets") and m is not None]
-    for m in (mp, mb):
-        if m not in mods:
-            mods.append(m)
-    _STATE["registry"] = threadsim.install_sim_locks(mods)
+    _STATE["registry"] = common.isolate_locks()
     _STATE["prefixes"] = threadsim.trace_prefixes_for(core.repo_dir())
     _STATE["installed"] = True
 
